@@ -62,8 +62,33 @@ CHECKS.update({
    technique="TLA+ sectioner machine vs declarative structure (exhaustive) + metamorphic trace validation judged by TLC"),
 })
 
+APITRUST = "go/parser as observer of inputs and outputs (harness ops impobs / histobs); rendering of the TLA+ scenarios to patch text and Go source in lib/; TLC evaluating the TLA+ predicates; bounds as stated in the evidence file"
+CHECKS.update({
+ "C09": dict(level="model_checking", ref="5/C09", note=APITRUST + "; hook events `change` of the verif build for the order of Match calls",
+   text="History.tla models the apply loop of the command (returns at the first failing replacement) and of the library (continues, reports at the end) as a state machine over abstract files (package, sequence of calls) and change sequences (renames with optional package guard / package rename, failing steps); TLC checks 'result = chain of single-change runs, or failure and the original file', 'a non-matching change is a no-op', strict order and termination for every file and sequence in the bounds. TLC-chosen scenarios of four classes (a change matches only what an earlier one produced / no longer matches what an earlier one removed / a step fails / plain) are delivered through seven routes (one patch file, one -p per change, -P list, stdin, -p/-P mixed, library API, chain of single-change runs re-reading the file) and TLC (TraceHistory.tla) judges every route's observed result against the chain semantics and the recorded Match events against the model's log.",
+   technique="TLA+ state machine of the apply loop vs chain semantics (TLC) + trace validation of hook events and of seven delivery routes"),
+ "C10": dict(level="model_checking", ref="5/C10", note=APITRUST,
+   text="Imports.tla holds the statement's guard table (P: unnamed matches unnamed, literal name matches that name, identifier metavariable matches any name or none; package clause) and a transcription of FileMatcher.Match / ImportMatcher.Match with the metavariable store (I); TLC checks I <=> P for every cell: package clause {none, same, other} x up to 2 guarded imports x 6 patch-side forms x every file importing each of 3 paths absent / unnamed / same name / other name / dot / blank. The cells are rendered (4 import layouts, plain or package-qualified code pattern that always occurs), run through patch.Parse / File.Apply, observed with go/parser and judged by TLC (TraceImports.tla): rewritten <=> all guards hold, and a failed guard leaves the imports alone. Two-change patch files in which the first change adds / deletes / renames imports and the second is guarded by the affected paths are judged on the observed result of the first change alone.",
+   technique="TLA+ guard table vs transcription of engine/import.go (exhaustive TLC check) + trace validation of replayed cells and two-change histories"),
+ "C11": dict(level="model_checking", ref="5/C11", note=APITRUST,
+   text="Imports.tla states what a change may do to the import set (unmentioned imports kept, nothing unmentioned added, '+' imports present under the literal / captured name, '-' imports gone when their name is no longer used or is provided by an added import, matched imports kept while used, nothing invented) and transcribes ImportsReplacer.Replace / Cleanup with astutil.AddNamedImport / DeleteNamedImport; TLC checks the transcription against the statement for 2.4 million scenarios (change of up to 2 import lines x file x set of names still in use). TLC-chosen scenarios are rendered (several blocks, commented specs, plain and chained selector uses, shadowing decoys), run through the real code, the imports and remaining uses read off the output with go/parser, and every record judged by TLC.",
+   technique="TLA+ import-set relation vs transcription of engine/import.go (exhaustive TLC check) + trace validation"),
+})
+
 NOT_YET = {
 }
+
+ENGINE_OF = {}
+for _p in ("C01", "C02", "C03", "C04", "C05"):
+    ENGINE_OF[_p] = "tla-rewrite"
+for _p in ("C13", "C19"):
+    ENGINE_OF[_p] = "tla-section"
+for _p in ("C06", "C07", "C12", "C15", "C16", "C18"):
+    ENGINE_OF[_p] = "tla-run"
+for _p in ("C10", "C11"):
+    ENGINE_OF[_p] = "tla-imports"
+ENGINE_OF["C09"] = "tla-history"
+
 
 def main():
     checks = []
@@ -75,7 +100,7 @@ def main():
             "thorough_cmd": "./check %s thorough" % pid,
             "evidence_file": "evidence/%s.json" % pid,
             "replay_cmd_template": "./check %s quick --replay {path}" % pid,
-            "engine": "tla-rewrite" if pid in ("C01","C02","C03","C04","C05") else ("tla-section" if pid in ("C13", "C19") else "tla-run"),
+            "engine": ENGINE_OF[pid],
             "level_claimed": {"category": c["level"], "text": c["text"], "design_ref": "DESIGN.md section " + c["ref"]},
             "level_note": c.get("note", TRUST),
             "technique": c["technique"],
@@ -100,6 +125,10 @@ def main():
              "kind_free_text": "state machine of the command's run pipeline with fault actions; hook-event and black-box trace validation of real CLI runs (strace, prlimit)"},
             {"name": "tla-section", "path": "spec/Section.tla spec/TraceSection.tla spec/Splitter.tla spec/TraceSplitter.tla lib/prop_c19.py lib/prop_c13.py",
              "serves_properties": ["C13", "C19"], "kind_free_text": "token-level model of the patch sectioner and metavariable parser; line-kind machine of the sectioner"},
+            {"name": "tla-imports", "path": "spec/Imports.tla spec/EmitImports.tla spec/TraceImports.tla lib/fam_imports.py harness/api.go",
+             "serves_properties": ["C10", "C11"], "kind_free_text": "guard table and import-set relation (P) vs transcription of engine/import.go (I); scenarios replayed into patch.Parse/File.Apply and judged by TLC"},
+            {"name": "tla-history", "path": "spec/History.tla spec/EmitHistory.tla spec/TraceHistory.tla lib/prop_c09.py",
+             "serves_properties": ["C09"], "kind_free_text": "state machine of the apply loop over change sequences vs chain-of-runs semantics; seven delivery routes and hook events validated by TLC"},
             {"name": "tla-rewrite", "path": "spec/Pattern.tla spec/RewriteUniverse.tla spec/MCRewrite.tla spec/TraceRewrite.tla harness/",
              "serves_properties": ["C01", "C02", "C03", "C04", "C05"],
              "kind_free_text": "TLA+ P-layer/I-layer of the pattern language; TLC design check; vectors replayed into patch.Parse/File.Apply; TLC trace validation"},
